@@ -10,8 +10,9 @@ simulated two-terminal segment (harness/simbus + harness/escsim in harness/simlo
 Every write access that reaches a terminal is a trace event, every return carries the register file
 and the object's attributes; TLC validates each trace against EscInit (post-condition of every
 call, frame condition on every write, simulator == specification's register file).  A rejected
-trace is validated once more with the relaxations (O1..O4) whose predicate TLC computed from the
-EEPROM: accepted then = an OBSERVATION (counted, exit stays 0), rejected = a violation.
+trace is validated again under every non-empty subset of the relaxations (O1..O4) whose predicate
+TLC computed from the EEPROM (EscInit!Applicable): the smallest accepted subset names the
+OBSERVATION (counted in ctx.extra["observations"], exit stays 0); no accepted subset = a violation.
 Python only builds images, drives the real code and records; all judgements are TLC's."""
 import asyncio
 import itertools
@@ -337,27 +338,10 @@ def validate(ctx, wd, traces, jobs=4, timeout=1500):
     return out
 
 
-def model_check(ctx, wd):
+def model_check(wd):
     """the design: a reference master (one register write per step) against the ESC semantics, from
     every prior state: each call's post-condition and frame condition hold (MC_EscInit)"""
-    nent, ncalls, rich = (1, 2, "FALSE") if ctx.quick else (2, 2, "TRUE")
-    T.write_cfg(wd, "mc_escinit.cfg", f"""SPECIFICATION MCSpec
-CONSTANTS NSm = 3
-          MaxEnt = {nent}
-          MaxCalls = {ncalls}
-          Rich = {rich}
-INVARIANTS RefMeetsPost
-           RefInFrame
-           MCTypeOK
-CHECK_DEADLOCK FALSE
-""")
-    res = T.require_clean(T.run(wd, "MC_EscInit", "mc_escinit.cfg", workers=4, timeout=900), "MC_EscInit")
-    if not res.ok:
-        raise T.MachineryError("EscInit.tla: the reference master violates the requirements:\n"
-                               + res.counterexample())
-    ctx.tlc_stats(res)
-    ctx.extra["mc_escinit"] = dict(distinct=res.distinct, generated=res.generated, NSm=3, MaxEnt=nent,
-                                   MaxCalls=ncalls, Rich=rich)
+    return T.require_clean(T.run(wd, "MC_EscInit", "mc_escinit.cfg", workers=4, timeout=900), "MC_EscInit")
 
 
 def script_key(s):
@@ -402,11 +386,31 @@ def run(ctx):
     def lap(name):
         tm[name] = round(time.time() - t0[0], 1)
         t0[0] = time.time()
-    model_check(ctx, wd)
-    lap("mc_escinit")
+    # the exhaustive model check of the design runs beside the conformance part
+    import threading
+    mc = {}
+    nent, ncalls, rich = (1, 2, "FALSE") if q else (2, 2, "TRUE")
+    T.write_cfg(wd, "mc_escinit.cfg", f"""SPECIFICATION MCSpec
+CONSTANTS NSm = 3
+          MaxEnt = {nent}
+          MaxCalls = {ncalls}
+          Rich = {rich}
+INVARIANTS RefMeetsPost
+           RefInFrame
+           MCTypeOK
+CHECK_DEADLOCK FALSE
+""")
+
+    def mc_run():
+        try:
+            mc["res"] = model_check(wd)
+        except BaseException as e:          # re-raised in the main thread
+            mc["exc"] = e
+    mc_thread = threading.Thread(target=mc_run)
+    mc_thread.start()
     # scripts: EEPROM variety x fixed call sequences, call-sequence variety x canonical EEPROMs
     if q:
-        sa, sb = enumerate_scripts(ctx, wd, 2, 1, [1], 2, 3, ["stale8"])
+        sa, sb = enumerate_scripts(ctx, wd, 2, 1, [1], 2, 2, ["stale8"])
     else:
         sa, sb = enumerate_scripts(ctx, wd, 4, 1, [0, 1, 2], 3, 6, ["stale8"])
         sb += enumerate_scripts(ctx, wd, 4, 1, [0, 1, 2], 2, 6, ["fresh", "stale1", "stale8"], part="calls")[1]
@@ -436,6 +440,17 @@ def run(ctx):
                     variants.append((i, list(sub)))
     res2 = validate(ctx, wd, [dict(traces[i], relax=sub) for i, sub in variants], jobs=4 if q else 6)
     lap("validate_relaxed")
+    mc_thread.join()
+    lap("mc_escinit_join")
+    if "exc" in mc:
+        raise mc["exc"]
+    if not mc["res"].ok:
+        raise T.MachineryError("EscInit.tla: the reference master violates the requirements:\n"
+                               + mc["res"].counterexample())
+    ctx.tlc_stats(mc["res"])
+    ctx.extra["mc_escinit"] = dict(distinct=mc["res"].distinct, generated=mc["res"].generated,
+                                   wall_s=round(mc["res"].wall, 1), NSm=3, MaxEnt=nent,
+                                   MaxCalls=ncalls, Rich=rich)
     accepted, closest = {}, {}
     for (i, sub), (m2, ln2, _) in zip(variants, res2):
         if m2 == ln2:
@@ -477,7 +492,7 @@ def run(ctx):
         eeprom_part="categories of <= %d entries, non-zero types distinct, <= 1 entry deviating from "
                     "(length non-zero, enabled), 3 call sequences each" % (2 if q else 4),
         calls_part="all call sequences of length %s over %d canonical categories" % ("2" if q else "3 and 2",
-                                                                                 3 if q else 6),
+                                                                                 2 if q else 6),
         extra_random_cases=20 if q else 400)
     for tr in traces[:2]:
         ctx.sample(dict(ee=tr["ee"], nf=tr["nf"], init_al=tr["init"]["al"],
